@@ -178,6 +178,7 @@ func (x *Exec) unknownCall(fr *Frame, st *State, name string, sig *types.Signatu
 		x.c.note("call to %s not inlined (recursive, too deep or no body) and has no contract: all heap havocked", name)
 		x.frameWrite(st, "*", nil)
 		x.havocAll(st)
+		st.calls = map[string][]Value{}
 	} else {
 		x.c.note("A-ext: %s assumed to modify only memory directly referenced by its arguments; results unconstrained", name)
 		for _, a := range args {
@@ -462,22 +463,32 @@ func (x *Exec) callContract(fr *Frame, st *State, fn *ssa.Function, fc *FuncCont
 	label := fn.Name()
 	for _, rq := range fc.Requires {
 		v := x.evalSpec(&specScope{x: x, fr: cfr, st: st, old: pre}, rq.Expr)
-		x.oblige(fr, st, "pre", x.src(fr.fn, pos, "call")+"~"+label+":"+rq.Label, pos, v.L[0])
+		if tfc := x.contracts[contractKey(x.top)]; tfc != nil && tfc.AssumeCalleePre {
+			x.c.note("in %s the preconditions of contracted callees are assumed, not proved (structural invariants of the caller's state)", x.topName)
+		} else {
+			x.oblige(fr, st, "pre", x.src(fr.fn, pos, "call")+"~"+label+":"+rq.Label, pos, v.L[0])
+		}
 		st.assume(v.L[0])
 	}
 	// frame
 	if fc.ModAll {
 		x.frameWrite(st, "*", nil)
-		x.havocAll(st)
+		x.havocHeap(st) // ghost call counters are invalidated below according to the callee's call graph
 	} else {
 		for _, m := range fc.Modifies {
 			x.havocModifies(cfr, st, pre, m)
 		}
 	}
-	// the callee may have called anything: the caller's ghost call log is stale
-	st.calls = map[string][]Value{}
+	// the callee may have called whatever its static call graph reaches: those entries of the
+	// caller's ghost call log are stale (everything, if the callee makes dynamic calls)
+	may := x.mayCall(fn)
+	for _, k := range sortedKeys(st.calls) {
+		if may == nil || may[k] {
+			delete(st.calls, k)
+		}
+	}
 	for _, k := range sortedKeys(st.ghost) {
-		if strings.HasPrefix(k, "ncalls:") {
+		if strings.HasPrefix(k, "ncalls:") && (may == nil || may[strings.TrimPrefix(k, "ncalls:")]) {
 			st.ghost[k] = x.c.Fresh("ghost_ncalls", idxSort)
 			if st.written != nil {
 				if st.written.ghost == nil {
@@ -487,7 +498,6 @@ func (x *Exec) callContract(fr *Frame, st *State, fn *ssa.Function, fc *FuncCont
 			}
 		}
 	}
-	x.logCall(st, contractKey(fn), args)
 	// results
 	x.bumpAlloc(st)
 	var rets []Value
@@ -521,6 +531,94 @@ func (x *Exec) callContract(fr *Frame, st *State, fn *ssa.Function, fc *FuncCont
 	}
 	outs := []Outcome{{St: st, Kind: OutReturn, Rets: rets}}
 	return outs
+}
+
+// mayCall returns the call-log names of the functions transitively reachable from fn through static
+// calls, or nil if fn (transitively) makes a dynamic call and may therefore reach anything.
+func (x *Exec) mayCall(fn *ssa.Function) map[string]bool {
+	if x.mayCallMemo == nil {
+		x.mayCallMemo = map[*ssa.Function]map[string]bool{}
+		x.mayCallAll = map[*ssa.Function]bool{}
+	}
+	if x.mayCallAll[fn] {
+		return nil
+	}
+	if m, ok := x.mayCallMemo[fn]; ok {
+		return m
+	}
+	out := map[string]bool{}
+	seen := map[*ssa.Function]bool{}
+	all := false
+	var walk func(f *ssa.Function)
+	walk = func(f *ssa.Function) {
+		if seen[f] || all {
+			return
+		}
+		seen[f] = true
+		for _, b := range f.Blocks {
+			for _, ins := range b.Instrs {
+				switch t := ins.(type) {
+				case *ssa.Send:
+					out["send:"+typeName(t.X.Type())] = true
+				case ssa.CallInstruction:
+					c := t.Common()
+					if _, isB := c.Value.(*ssa.Builtin); isB {
+						continue
+					}
+					if c.IsInvoke() {
+						if c.Value.Type() != nil {
+							out["("+typeName(c.Value.Type())+")."+c.Method.Name()] = true
+						}
+						if !isBenignIface(c.Value.Type()) {
+							all = true
+						}
+						continue
+					}
+					callee := c.StaticCallee()
+					if callee == nil {
+						if mc, ok := c.Value.(*ssa.MakeClosure); ok {
+							walk(mc.Fn.(*ssa.Function))
+							continue
+						}
+						all = true
+						continue
+					}
+					full := callee.String()
+					if o := callee.Origin(); o != nil {
+						full = o.String()
+					}
+					out[strings.ReplaceAll(full, modulePrefix, "")] = true
+					if inModule(callee) && !isNoEffect(callee) {
+						walk(callee)
+					}
+				}
+			}
+		}
+	}
+	walk(fn)
+	if all {
+		x.mayCallAll[fn] = true
+		return nil
+	}
+	x.mayCallMemo[fn] = out
+	return out
+}
+
+// isBenignIface: interface types whose methods cannot call back into the module (library leaf interfaces).
+func isBenignIface(T types.Type) bool {
+	if n, ok := T.(*types.Named); ok && n.Obj().Pkg() != nil {
+		p := n.Obj().Pkg().Path()
+		for _, pre := range noEffectPkgs {
+			if p == pre || strings.HasPrefix(p, pre) {
+				return true
+			}
+		}
+	}
+	switch typeName(T) {
+	case "error", "io.Reader", "io.Writer", "crypto/cipher.AEAD", "crypto/cipher.Block", "hash.Hash", "fmt.Stringer", "context.Context":
+		return true
+	}
+	return false
 }
 
 // havocModifies havocs the memory named by a modifies target expression evaluated in the callee scope.
